@@ -98,7 +98,7 @@ impl Check for C20 {
         120
     }
     fn cases(&self, tier: Tier) -> usize {
-        tier.pick(320, 8_000)
+        tier.pick(3_000, 60_000)
     }
     fn strategy(&self, _tier: Tier) -> BoxedStrategy<Case> {
         gt::choices(120).prop_map(|choices| Case { choices }).boxed()
